@@ -198,9 +198,7 @@ def render(case, defname="f"):
 
 def valid_combo(case):
     if case["kind"] == "lambda":
-        if case["indent"] != "0" and "\n" in LAMBDAS[case["lam"]][0] + HOSTS[case["host"]] and case["form"] == "source":
-            return True
-        return True
+        return not (case["form"] == "func" and case["host"] == "bare")      # a bare expression leaves no object to pass
     if case["body"] in ("oneline", "oneline-semicolon", "oneline-doc"):
         if case["doc"] != "none":
             return False
